@@ -195,6 +195,36 @@ def rule_render(ctx, R):
         short = name.rsplit("::", 1)[-1]
         R.check(not bad and not problems, "render:" + short, "%s: `_` for an empty slot; an operator (type 0/1) writes its character and both operands (%s); a heart writes only its own character" % (short, "prefix" if "debug" in short else "[left]op[right]"), b.span, {"differs": bad, "undecided": problems[:4]})
 
+    # the formatting impls hand the whole tree to the renderer and print exactly what it wrote
+    from .util import Vars, reaches_without
+    wrappers = [
+        ("Area as core::fmt::Display>::fmt", "hyeong::core::area::area_to_string_display", ("ARG1", "P1")),
+        ("Area as core::fmt::Debug>::fmt", "hyeong::core::area::area_to_string_debug", ("ARG1", "P1")),
+        ("UnOptCode as core::fmt::Debug>::fmt", "hyeong::core::area::area_to_string_debug", ("ARG1.area", "P1.area")),
+    ]
+    for suffix, renderer, subject in wrappers:
+        cands = [n for n in fb.bodies if n.endswith(suffix)]
+        if not R.anchor(len(cands) == 1, "render:wrapper:" + suffix.split(" ")[0], "impl %s" % suffix):
+            continue
+        wb = fb.bodies[cands[0]]
+        R.analyse(wb.name)
+        wcfg = normal_cfg(wb)
+        wroles = Roles(wb, fb)
+        wv = Vars(wb)
+        calls_ = [(bi, t) for bi, t in wb.calls() if callee_name(t["f"], fb) == renderer]
+        writes_ = [(bi, t) for bi, t in wb.calls() if callee_name(t["f"], fb).endswith("write_fmt") or callee_name(t["f"], fb).endswith("Formatter::write_str")]
+        ok, why = False, "renderer calls %d, writes %d" % (len(calls_), len(writes_))
+        if len(calls_) == 1 and len(writes_) == 1:
+            cb, ct = calls_[0]
+            wbk, wt = writes_[0]
+            buf = wv.root_key(ct["args"][0])
+            shown = {wv.root_key(t["args"][0]) for bi, t in wb.calls() if "Argument::new_" in callee_name(t["f"], fb)}
+            if callee_name(wt["f"], fb).endswith("Formatter::write_str"):
+                shown = {wv.root_key(wt["args"][1])}
+            ok = wroles.of_operand(ct["args"][1], cb) in subject and buf is not None and buf in shown and not reaches_without(wcfg, [0], wbk, cut_blocks=[cb])
+            why = "renders %s into %s, printed values %s" % (wroles.of_operand(ct["args"][1], cb), wv.name(buf), sorted(wv.name(k) for k in shown if k))
+        R.check(ok, "render:wrapper:%s" % suffix.split(">")[0].replace(" as core::fmt::", ":"), "the formatting impl renders the whole tree of its subject into a buffer and prints that buffer: %s" % why, wb.span)
+
 
 RULES.append(("C08.RENDER", "the two renderings of area trees: decision tables of the characters written and the recursion per node kind", rule_render))
 
